@@ -12,8 +12,10 @@
 EXTENDS Naturals, Sequences, FiniteSets, Bags
 
 Lower(d) == IF d = "X" THEN "x" ELSE d
-(* the forwarding rule set used by model and driver:  ^a@ -> z@ ;  @y$ -> @w ; first match wins *)
-Rewrite(r) == IF r.l = "a" /\ r.d # "none" THEN [r EXCEPT !.l = "z"]
+(* the forwarding rule set used by model and driver:  ^c@y$ -> c@y (an exemption: a rule that maps an address to itself) ;
+   ^a@ -> z@ ;  @y$ -> @w ; the first rule that matches wins, whether or not it changes the address *)
+Rewrite(r) == IF r.l = "c" /\ r.d = "y" THEN r
+              ELSE IF r.l = "a" /\ r.d # "none" THEN [r EXCEPT !.l = "z"]
               ELSE IF r.d = "y" THEN [r EXCEPT !.d = "w"] ELSE r
 
 PolicyNames == {"RS", "DS", "FW", "D", "M", "R", "SELF", "ECHO"}
